@@ -1061,6 +1061,12 @@ def explore_c12(rng, tier, res, deep=False):
            "1e400", "-1e400", "1.5e400", "-2.0e999", "1.7976931348623157e308", "1.7976931348623159e308", "0.0", "-0.0", "0.0e5", "-0e-3"]
     for sp in fl:
         qs += [f"$[?@.a == {sp}]", f"$[?{sp} < @.a || @.b >= {sp}]", f"$[?vf({sp}) != @.a]"]
+    # long FLAT chains of one operator (no parentheses in the source): the printed form may add a pair of parentheses per
+    # term; it must still be a query that compiles back to the same thing
+    for nterms in (40, 101, 120, 150):
+        for opx in ("&&", "||"):
+            qs.append("$[?" + f" {opx} ".join(f"@.k{i}" for i in range(nterms)) + "]")
+        qs.append("$[?@.x == 1 && (" + " || ".join(f"@.k{i}" for i in range(nterms - 10)) + ")]")
     qs += ["$[?@.a && @.a]", "$[?@.a || @.a]", "$[?(@.a) && ((@.a))]", "$[?1 == 1 && 1 == 1]", "$[?@.a == @.a]", "$[?!(!(@.a && @.a))]", "$[?@.a && @.b && @.a]",
            "$[-1,0,1]", "$[2,3,4]", "$[0,0]", "$['a','a']", "$[1:2]", "$[-1:0]", "$[0:1:1]", "$[?@.a < 1.0]", "$[?@.a == 2.0]", "$[?@.a == 250e-1]", "$[?@.a == 1e0]"]
     qs += ["$[?!(@.a == 1)]", "$[?!(@.a && @.b)]", "$[?(@.a || @.b) && @.c]", "$[?@.a || @.b && @.c]", "$[?!(!@.a)]",
